@@ -15,6 +15,7 @@ def run(ctx):
     import nir
     from nir.serialization import read_version
     rng = ctx.rng
+    cases, obs, reqs = [], [], []
     tmpdir = tempfile.mkdtemp(prefix="nirverif-c03-", dir="/var/tmp")
     try:
         for i in range(ctx.n(300)):
@@ -33,6 +34,9 @@ def run(ctx):
             except Exception as e:  # noqa
                 ctx.count("write_rejected"); continue
             got = h5raw.traverse_file(path)
+            from props.c01 import model_tree
+            c1 = {"op": "write", "graph": g, "version": nir.version}
+            cases.append(c1); obs.append({"file": model_tree(got)}); reqs.append(c1)
             try:
                 want = h5raw.ref_file(g, nir.version)
             except Exception as e:  # noqa
@@ -50,6 +54,7 @@ def run(ctx):
             except Exception as e:  # noqa
                 ctx.violate(case, "read_version raised", {"site": "read_version", "what": "raised"}, observed=err_name(e))
             ctx.count("n_edges_0" if not g["edges"] else "n_edges_pos")
+        ctx.compare("files", cases, obs, reqs)
     finally:
         import shutil
         shutil.rmtree(tmpdir, ignore_errors=True)
